@@ -194,9 +194,11 @@ def gen_script(rng, R):
             script.append(["sched", rng.choice([-1.0, -0.5, -0.001, 0.002, 0.01, 0.03])])
         elif r < .56:
             script.append(["sched_equal"])
+        elif r < .62:
+            script.append(["sigint"])
         else:
             script.append(["req", rng.choice([0, 0, 0.001, 0.004, 0.02, "block"])])
-    return {"kind": "seq", "paste_threshold": pt, "sigint_event": rng.random() < .3, "script": script}
+    return {"kind": "seq", "paste_threshold": pt, "sigint_event": rng.random() < .4, "script": script}
 
 
 def run_seq(ctx, case):
@@ -304,6 +306,16 @@ def run_seq(ctx, case):
                         raise RuntimeError("scheduled event id bookkeeping")
                     hist.append({"k": "sched", "id": sid, "when": when, "t": now})
                     D.sched[sid] = when
+                elif k == "sigint":
+                    if case["sigint_event"]:
+                        # a SIGINT between two requests (the handler runs before the next statement)
+                        os.kill(os.getpid(), signal.SIGINT)
+                        for _ in range(200):
+                            if len(inp.sigints) > D.sigints:
+                                break
+                            time.sleep(0.0005)
+                        hist.append({"k": "sigint", "t": time.monotonic()})
+                        D.sigints += 1
                 elif k == "req":
                     to = act[1]
                     if to == "block":
